@@ -292,3 +292,13 @@ package rag
 //@   requires og.config.Size >= 0
 //@   callsite generateCharacterOverlap(t) requires sameseq(t, cutAtRuneBoundary(overlap, og.config.MaxOverlap))
 //@   ensures short_overlap_unchanged: len(overlap) <= og.config.MaxOverlap ==> sameseq(r, overlap)
+
+// Overlap for chunk i is generated from the ORIGINAL text of chunk i-1 (its own content), never from a text that
+// already carries chunk i-2's overlap.
+//@ func ApplyOverlapToChunks results (res)
+//@   property C13
+//@   flags nosafety
+//@   callsite GenerateOverlap(t) requires sameseq(t, old(chunks)[i-1].Text)
+//@   ensures one_result_per_chunk: len(res) == len(chunks)
+//@   loop 0:
+//@     invariant len(result) == len(chunks) && len(chunks) == len(old(chunks))
